@@ -18,17 +18,37 @@ import SqlProofs.CteShape.Table.T16
 import SqlProofs.CteShape.Table.T17
 import SqlProofs.CteShape.Table.T18
 import SqlProofs.CteShape.Table.T19
+import SqlProofs.CteShape.Table.T20
+import SqlProofs.CteShape.Table.T21
+import SqlProofs.CteShape.Table.T22
+import SqlProofs.CteShape.Table.T23
+import SqlProofs.CteShape.Table.T24
+import SqlProofs.CteShape.Table.T25
+import SqlProofs.CteShape.Table.T26
+import SqlProofs.CteShape.Table.T27
+import SqlProofs.CteShape.Table.T28
+import SqlProofs.CteShape.Table.T29
+import SqlProofs.CteShape.Table.T30
+import SqlProofs.CteShape.Table.T31
+import SqlProofs.CteShape.Table.T32
+import SqlProofs.CteShape.Table.T33
+import SqlProofs.CteShape.Table.T34
+import SqlProofs.CteShape.Table.T35
+import SqlProofs.CteShape.Table.T36
+import SqlProofs.CteShape.Table.T37
+import SqlProofs.CteShape.Table.T38
+import SqlProofs.CteShape.Table.T39
 /-!
 # SqlProofs.CteShape.Table — every skeleton of the CTE table passes `cteCheck`
 -/
 namespace Sql
 namespace Acc
 
-theorem cte_all_drop_take {α : Type} (p : α → Bool) (l : List α) (k : Nat) (h1 : ((l.drop k).take 10).all p = true)
-    (h2 : (l.drop (k + 10)).all p = true) : (l.drop k).all p = true := by
-  have e : l.drop k = (l.drop k).take 10 ++ l.drop (k + 10) := by
-    rw [show l.drop (k + 10) = (l.drop k).drop 10 by rw [List.drop_drop, Nat.add_comm]]
-    exact (List.take_append_drop 10 _).symm
+theorem cte_all_drop_take {α : Type} (p : α → Bool) (l : List α) (k : Nat) (h1 : ((l.drop k).take 5).all p = true)
+    (h2 : (l.drop (k + 5)).all p = true) : (l.drop k).all p = true := by
+  have e : l.drop k = (l.drop k).take 5 ++ l.drop (k + 5) := by
+    rw [show l.drop (k + 5) = (l.drop k).drop 5 by rw [List.drop_drop, Nat.add_comm]]
+    exact (List.take_append_drop 5 _).symm
   rw [e, List.all_append, h1, h2]; rfl
 
 theorem cteTable_tail : (cteSkels.drop 200).all cteCheck = true := by
@@ -39,25 +59,45 @@ theorem cteTable_tail : (cteSkels.drop 200).all cteCheck = true := by
 theorem cteTable_ok : ∀ sk ∈ cteSkels, cteCheck sk = true := by
   have h : (cteSkels.drop 0).all cteCheck = true := by
     apply cte_all_drop_take _ _ _ cte_000
+    apply cte_all_drop_take _ _ _ cte_005
     apply cte_all_drop_take _ _ _ cte_010
+    apply cte_all_drop_take _ _ _ cte_015
     apply cte_all_drop_take _ _ _ cte_020
+    apply cte_all_drop_take _ _ _ cte_025
     apply cte_all_drop_take _ _ _ cte_030
+    apply cte_all_drop_take _ _ _ cte_035
     apply cte_all_drop_take _ _ _ cte_040
+    apply cte_all_drop_take _ _ _ cte_045
     apply cte_all_drop_take _ _ _ cte_050
+    apply cte_all_drop_take _ _ _ cte_055
     apply cte_all_drop_take _ _ _ cte_060
+    apply cte_all_drop_take _ _ _ cte_065
     apply cte_all_drop_take _ _ _ cte_070
+    apply cte_all_drop_take _ _ _ cte_075
     apply cte_all_drop_take _ _ _ cte_080
+    apply cte_all_drop_take _ _ _ cte_085
     apply cte_all_drop_take _ _ _ cte_090
+    apply cte_all_drop_take _ _ _ cte_095
     apply cte_all_drop_take _ _ _ cte_100
+    apply cte_all_drop_take _ _ _ cte_105
     apply cte_all_drop_take _ _ _ cte_110
+    apply cte_all_drop_take _ _ _ cte_115
     apply cte_all_drop_take _ _ _ cte_120
+    apply cte_all_drop_take _ _ _ cte_125
     apply cte_all_drop_take _ _ _ cte_130
+    apply cte_all_drop_take _ _ _ cte_135
     apply cte_all_drop_take _ _ _ cte_140
+    apply cte_all_drop_take _ _ _ cte_145
     apply cte_all_drop_take _ _ _ cte_150
+    apply cte_all_drop_take _ _ _ cte_155
     apply cte_all_drop_take _ _ _ cte_160
+    apply cte_all_drop_take _ _ _ cte_165
     apply cte_all_drop_take _ _ _ cte_170
+    apply cte_all_drop_take _ _ _ cte_175
     apply cte_all_drop_take _ _ _ cte_180
+    apply cte_all_drop_take _ _ _ cte_185
     apply cte_all_drop_take _ _ _ cte_190
+    apply cte_all_drop_take _ _ _ cte_195
     exact cteTable_tail
   exact fun sk hsk => List.all_eq_true.1 (by simpa using h) sk hsk
 
